@@ -151,6 +151,8 @@ def sis_contracts():
                    0 <= i, i <= a, rtc.lens[x0] == b - nrec,
                    so.forall_idx(itc.lens[x0], lambda j: itc.vals[x0][j] == IT0.vals[x0][i + j]),
                    so.forall_idx(rtc.lens[x0], lambda j: rtc.vals[x0][j] == RT0.vals[x0][nrec + j]),
+                   # the side condition restated over what is left of the list (no index arithmetic into the entry list)
+                   Implies(sis_ok(IT0, x0)(s.tmin), so.forall_idx(itc.lens[x0], lambda j: Implies(i + j >= 1, itc.vals[x0][j] != s.tmin))),
                    Implies(And(sis_ok(IT0, x0)(s.tmin), sis_alt(IT0, RT0, x0)),
                            If(i == 0, And(h.times.lens[x0] == 1, entry(h, x0, 0, s.tmin, SC('S'))),
                               sis_hist_prefix(h, x0, s.tmin, IT0, RT0, i))),
